@@ -19,6 +19,8 @@ const modPath = "github.com/comdex-official/comdex"
 // Prog is the loaded, type-checked and SSA-built repository.
 type Prog struct {
 	handlerSetMemo map[*ssa.Function]bool
+	pureDepth      int
+	throughPureOn  bool // DeepOrigins follows results of pure comdex helpers into their arguments
 	Fset           *token.FileSet
 	Roots          []*packages.Package
 	ByPath         map[string]*packages.Package
